@@ -75,6 +75,11 @@ PROGRAMS = [
     ("tricloud", "tricloud", 6000, 30, 0, "q", False, "Triangulate 6000 tiny squares at 30 sites"),
     ("pinch", "pinch", 100, 0, 0, "q", True, "two pockets touching along an edge cut into a block (self-touching face boundaries), P > 1e4 halfedges so face slots are handed out in parallel"),
     ("pinchr", "pinch", 100, 45, 0, "q", True, "same, second operand rotated 45 degrees"),
+    ("tp2k", "tetpairs", 2000, 1, 0, "q", True, "2000 pairs of tetrahedra sharing an edge AND its two vertices (even-manifold, not 2-manifold import; 48k halfedges > 1e4: DedupeEdges parallel branch)"),
+    ("tp45k", "tetpairs", 45000, 1, 0, "q", False, "45000 such pairs: 270000 verts >= 2^18 (CreateHalfedges bucketed branch with AtomicAdd slots), 360000 tris > 1e5, shuffled"),
+    ("tp45ks", "tetpairs", 45000, 0, 0, "t", False, "control: same solids with their own copies of the edge vertices (2-manifold)"),
+    ("tp90k", "tetpairs", 90000, 1, 0, "t", False, "90000 pairs"),
+    ("tp300", "tetpairs", 300, 1, 0, "q", True, "300 pairs: below every threshold"),
     ("dedupe", "dedupe", 100, 0, 0, "q", True, "MeshGL import with a 4-manifold edge, 15k halfedges > 1e4: DedupeEdges/SplitPinchedVerts par paths"),
     ("dedupe_s", "dedupe", 32, 0, 0, "q", True, "same below 1e4"),
     ("simplify", "simplify", 100, 23, 0.02, "q", False, "Simplify of a Boolean"),
@@ -233,7 +238,7 @@ def run(cx):
     ref = parse(results["seq"][1])
     evals, diffs = 0, {}
     crashed = []
-    per_prog = {p[0]: {"configs": 0, "distinct_hashes": set()} for p in progs}
+    per_prog = {p[0]: {"configs": 0, "distinct_hashes": set(), "nonseq_hashes": set()} for p in progs}
     for name, (rc, out, err) in results.items():
         got = parse(out)
         if rc != 0:
@@ -244,6 +249,8 @@ def run(cx):
                 continue
             per_prog[pid]["configs"] += 1
             per_prog[pid]["distinct_hashes"].add(h)
+            if name != "seq":
+                per_prog[pid]["nonseq_hashes"].add(h)
             r = ref.get((pid, 0))
             # keep one witness per program, preferring a simulated schedule (replayable from its seed)
             if r and r[0] != h and (pid not in diffs or (name.startswith("sim/") and not diffs[pid][0].startswith("sim/"))):
@@ -257,7 +264,10 @@ def run(cx):
     pmap = {p[0]: p for p in progs}
     found_keys = set()
     for pid, (name, rep, h, h0, df) in sorted(diffs.items()):
-        key = KIND_KEY.get(pmap[pid][1], "hash-differs-" + pmap[pid][1])
+        # all non-seq runs agree with each other -> a pure backend (seq vs par/sim code path) difference;
+        # otherwise the export depends on the schedule
+        backend_only = len(per_prog[pid]["nonseq_hashes"]) == 1
+        key = KIND_KEY.get(pmap[pid][1], ("backend-differs-" if backend_only else "hash-differs-") + pmap[pid][1])
         found_keys.add(key)
         cx.violation(key, "program %s (%s): export differs between seq build and %s (rep %d): fields %s; %d distinct hashes over %d runs" % (
             pid, pmap[pid][7], name, rep, ",".join(df), len(per_prog[pid]["distinct_hashes"]), per_prog[pid]["configs"]),
